@@ -143,12 +143,18 @@ def make_classes(ctx: Ctx) -> Dict[str, type]:
 
     # ------------------------------------------------------------------ markets
     class TapMixin:
+        _vsim_tap = True
+
         def __init__(self, *a, **k):
             super().__init__(*a, **k)
             sc = ctx.knobs.get("storage_chunk")
             if sc and hasattr(self, "chunk_size"):
                 self.chunk_size = int(sc)
                 mon.ext["storage_chunk_applied"] = int(sc)
+
+        def setup(self, settings, *a, **k):
+            mon.ext.setdefault("built_settings", {})[self.name] = dict(settings)
+            super().setup(settings, *a, **k)
 
         def _add_order(self, order):
             mon.pre_add(self, order)
@@ -206,6 +212,7 @@ def make_classes(ctx: Ctx) -> Dict[str, type]:
     # ------------------------------------------------------------------ scripted agents
     class ScriptedMixin:
         def setup(self, settings, accessible_markets_ids, *a, **k):
+            mon.ext.setdefault("built_settings", {})[self.name] = dict(settings)
             super().setup(settings, accessible_markets_ids, *a, **k)
             self.turns = list(ctx.scripts.get(self.name, []))
             self.turn_i = 0
@@ -433,6 +440,7 @@ def make_classes(ctx: Ctx) -> Dict[str, type]:
         """generated user event: arbitrary hook sets, time lists and market filters."""
 
         def setup(self, settings, *a, **k):
+            mon.ext.setdefault("built_settings", {})["event:" + self.name] = dict(settings)
             super().setup(settings, *a, **k)
             self.spec = ctx.probes.get(self.name, {})
 
